@@ -1113,9 +1113,102 @@ class Rewriter:
             return t if r is None else r
         return t
 
+    def p_local_lambdas(self, t):
+        """R13b: a local single-return lambda `auto f = [..](T a, U b) { return E; };` that a unit has no explicit target for is
+        inlined at its call sites: `f(x, y)` -> `(E[a:=(x), b:=(y)])`; when a parameter occurs more than once in E and the argument is
+        not a plain identifier/literal, a GCC statement expression binds it once `({ T a = (x); E; })`.  Nothing is lost (same
+        expression text); anything else about the lambda (captures by copy that are later modified, statements other than one return,
+        generic `auto` parameters, recursion) is an extraction break as before."""
+        i = 0
+        out = list(t)
+        if os.environ.get('VERIF_NO_LAMBDA_INLINE'):
+            return out
+        while i + 6 < len(out):
+            if not (out[i].text == 'auto' and out[i + 1].kind == 'id' and out[i + 2].text == '=' and out[i + 3].text == '['):
+                i += 1
+                continue
+            name = out[i + 1].text
+            rb = match_close(out, i + 3)
+            cap = [x.text for x in out[i + 4:rb]]
+            if cap not in ([], ['&'], ['='], ['this'], ['&', ',', 'this'], ['=', ',', 'this']) or out[rb + 1].text != '(':
+                i += 1
+                continue
+            rp = match_close(out, rb + 1)
+            params = []
+            ok = True
+            for part in _split_commas(out[rb + 2:rp]):
+                if len(part) < 2 or part[-1].kind != 'id' or any(x.text == 'auto' for x in part):
+                    ok = False
+                    break
+                ty = [x for x in part[:-1]]
+                if ty and ty[-1].text == '&':        # by (const) reference: same as by value for a pure single expression
+                    ty = ty[:-1]
+                params.append((ty, part[-1].text))
+            j = rp + 1
+            while j < len(out) and out[j].text in ('const', 'noexcept', 'mutable'):
+                j += 1
+            if not ok or j >= len(out) or out[j].text != '{':
+                i += 1
+                continue
+            cb = match_close(out, j)
+            body = out[j + 1:cb]
+            if not body or body[0].text != 'return' or body[-1].text != ';' or sum(1 for x in body if x.text == ';') != 1 \
+                    or cb + 1 >= len(out) or out[cb + 1].text != ';' or any(x.text == name for x in body):
+                i += 1
+                continue
+            expr = body[1:-1]
+            # a unit that declares this lambda as its own target (lambda_in) keeps it
+            if any(f.get('lambda_in') and f.get('name') == name for f in self.unit.get('functions', [])):
+                i += 1
+                continue
+            decl_lo, decl_hi = i, cb + 2
+            rest = out[decl_hi:]
+            k = 0
+            new_rest = []
+            uses = 0
+            while k < len(rest):
+                x = rest[k]
+                if x.kind == 'id' and x.text == name and k + 1 < len(rest) and rest[k + 1].text == '(' and (k == 0 or rest[k - 1].text not in ('.', '->', '::')):
+                    ce = match_close(rest, k + 1)
+                    args = _split_commas(rest[k + 2:ce]) if ce > k + 2 else []
+                    if len(args) != len(params):
+                        raise ExtractionBreak(f"local lambda '{name}': called with {len(args)} arguments, declared with {len(params)}")
+                    L = x.line
+                    binds = []
+                    sub = {}
+                    for (ty, pn), a in zip(params, args):
+                        occ = sum(1 for y in expr if y.kind == 'id' and y.text == pn)
+                        simple = len(a) == 1 and a[0].kind in ('id', 'num', 'chr', 'str')
+                        if occ <= 1 or simple:
+                            sub[pn] = [Tok('op', '(', L)] + list(a) + [Tok('op', ')', L)]
+                        else:
+                            binds += list(ty) + [Tok('id', pn, L), Tok('op', '=', L), Tok('op', '(', L)] + list(a) + [Tok('op', ')', L), Tok('op', ';', L)]
+                    e2 = []
+                    for y in expr:
+                        if y.kind == 'id' and y.text in sub:
+                            e2 += [Tok(z.kind, z.text, L) for z in sub[y.text]]
+                        else:
+                            e2.append(Tok(y.kind, y.text, L))
+                    if binds:
+                        new_rest += [Tok('op', '(', L), Tok('op', '{', L)] + binds + e2 + [Tok('op', ';', L), Tok('op', '}', L), Tok('op', ')', L)]
+                    else:
+                        new_rest += [Tok('op', '(', L)] + e2 + [Tok('op', ')', L)]
+                    uses += 1
+                    k = ce + 1
+                    continue
+                if x.kind == 'id' and x.text == name:
+                    raise ExtractionBreak(f"local lambda '{name}' is used other than by a direct call (line {x.line})")
+                new_rest.append(x)
+                k += 1
+            out = out[:decl_lo] + new_rest
+            self.R.fire('R13b')
+            # do not advance: the next token is examined again
+        return out
+
     def rewrite(self, body):
         t = list(body)
         t = self.hook('hook_begin', t)
+        t = self.p_local_lambdas(t)
         t = self.p_qualifiers(t)
         t = self.p_rules(t, 'pre')
         t = self.p_typemap(t)
@@ -1286,6 +1379,25 @@ def extract_constant(toks, name, cname, report, scope=None):
 
 def sha(s):
     return hashlib.sha256(s.encode()).hexdigest()[:16]
+
+
+def _split_commas(toks):
+    """top-level comma split of a call's argument tokens (round/square/curly brackets only)"""
+    parts, cur, d = [], [], 0
+    for y in toks:
+        if y.kind not in ('str', 'chr', 'expr'):
+            if y.text in ('(', '[', '{'):
+                d += 1
+            elif y.text in (')', ']', '}'):
+                d -= 1
+        if y.text == ',' and d == 0:
+            parts.append(cur)
+            cur = []
+        else:
+            cur.append(y)
+    if cur:
+        parts.append(cur)
+    return parts
 
 
 def split_params(toks):
